@@ -743,6 +743,20 @@ func frGenHpack(seed int64, n int, corpus [][]byte, emit func([]byte, string)) {
 			emit(s[:k], "seed-cut")
 		}
 	}
+	// HPACK integers at every size: k continuation octets of 0xff / 0x80 and a final octet, in each position an
+	// integer can take (index, name length, value length, table size update); lengths near 2^31, 2^32, 2^63
+	for _, head := range [][]byte{{0x00, 0x7f}, {0x00, 0xff}, {0x40, 0x01, 'a', 0x7f}, {0x10, 0x01, 'a', 0xff}, {0xff}, {0x7f}, {0x0f}, {0x3f}} {
+		for k := 0; k <= 10; k++ {
+			for _, fill := range []byte{0xff, 0x80} {
+				for _, last := range []byte{0x00, 0x01, 0x7f, 0x0f} {
+					b := append([]byte(nil), head...)
+					b = append(b, bytes.Repeat([]byte{fill}, k)...)
+					b = append(b, last, 'x', 'y', 'z')
+					emit(b, "varint")
+				}
+			}
+		}
+	}
 	// every single byte, every pair over a boundary alphabet
 	for a := 0; a < 256; a++ {
 		emit([]byte{byte(a)}, "byte")
